@@ -29,5 +29,8 @@ for _ts, _sp in ((60, 15), (44, 11)):                                        # o
 _h = _copy.deepcopy(HARNESSES[2])
 _h.update({'name': 'h_retarget_bits', 'tiers': ['thorough'], 'rungs': {'thorough': [{'defines': ['MOREBITS'], 'bound': 'as h_retarget with starting difficulties 0x1e008000 (compact sign-bit normalisation), 0x1f280000 (a little over a quarter of the limit), 0x1e7fffff', 'timeout': 900}]}})
 HARNESSES.append(_h)
+_h = _copy.deepcopy(HARNESSES[2])
+_h.update({'name': 'h_retarget_i5', 'tiers': ['thorough'], 'rungs': {'thorough': [{'defines': ['NI=5', 'TS=50'], 'bound': 'interval 5 (timespan 50 s, spacing 10 s; clamps 12 s (truncating T/4) / 200 s, divisor 50), otherwise as h_retarget (case split: 57624 patterns)', 'timeout': 1500}]}})
+HARNESSES.append(_h)
 EXPLANATION = 'Header acceptance of the real BTC tree is compared on every path with an independent implementation of the contextual rules written over plain integers.'
 ASSUMPTIONS = ['h_hdr crosses no retarget boundary (interval 2016); h_retarget decides the boundary arithmetic on interval 4 with case-split timestamps (timespan 40 s; thorough also 60 s and 44 s; mainnet-size intervals use the same code with other parameters)', 'hash = 3 symbolic high bytes + id; SHA-256 not encoded', 'VBK retarget arithmetic (regtest does not retarget) and checkVbkBlockPlausibility are not covered']
